@@ -1,0 +1,7 @@
+//go:build !verif
+
+package util
+
+// Yield marks a named scheduling point for the verification harness; it does nothing unless the
+// package is built with the `verif` tag.
+func Yield(string) {}
